@@ -890,3 +890,5 @@ def run(tier, seed):
     col = run_shards(_shard, shards)
     return col, {"exhaustive": True, "states": len(col.sets.get("states", ())), "transitions": col.counters.get("transitions", 0),
                  "traces_validated_against_impl": col.counters.get("transitions", 0), "depth": depth}
+
+RULE += (' Beyond small: stores with 100..1200 (thorough 5000) individuals written singly and by sync_all, changed and written again; individuals of different classes in one store; two read-mode views alive at once; 2-3 sessions on one file.')
